@@ -315,6 +315,18 @@ func candidates(g *gen, t *sg.TypeSpec) []string {
 				}
 			}
 			if t.FD > 0 {
+				// written without a decimal point: the whole numbers next to every bound
+				scale := new(big.Int).Exp(big.NewInt(10), big.NewInt(int64(t.FD)), nil)
+				for _, iv := range ivs {
+					for _, b := range []*big.Int{iv.Lo, iv.Hi} {
+						ip := new(big.Int).Quo(b, scale)
+						for d := int64(-1); d <= 1; d++ {
+							out = append(out, new(big.Int).Add(ip, big.NewInt(d)).String())
+						}
+					}
+				}
+			}
+			if t.FD > 0 {
 				// not decimal64 lexical forms although they read as numbers: exponents, hex floats, digit separators, missing parts
 				out = append(out, "1.5e1", "+7.e1", "9.9e-1", "1.0E2", "-3.0e+00", "1.e0", "0.5e0", "0x1.8p1", "1_0.5", "1.5f", ".5", "5.", "+.5", "1..5", "1.5.", "1,5", "١.٥")
 				out = append(out, "1."+strings.Repeat("1", t.FD), "1."+strings.Repeat("1", t.FD+1), "1."+strings.Repeat("1", max(1, t.FD-1)), "1", "-1", "0."+strings.Repeat("0", t.FD-1)+"1")
@@ -396,6 +408,22 @@ func isNumeric(s string) bool {
 	return ok
 }
 
+// beyond64: the type is a plain decimal64 and the value, written with or without a decimal point, lies outside the
+// 64-bit bounds of its fraction digits.  Such a value is refused by the exact bound check, before any range is compared
+// in floating point, so the known finding about float comparison does not reach it.
+func beyond64(t *sg.TypeSpec, v string) bool {
+	if t.Name != "decimal64" || t.FD == 0 {
+		return false
+	}
+	x, ok := vt.ParseScaled(v, t.FD)
+	if !ok {
+		return false
+	}
+	lo := new(big.Int).Lsh(big.NewInt(-1), 63)
+	hi := new(big.Int).Sub(new(big.Int).Lsh(big.NewInt(1), 63), big.NewInt(1))
+	return x.Cmp(lo) < 0 || x.Cmp(hi) > 0
+}
+
 func checkCase(c Case) fw.Outcome {
 	out := fw.Outcome{Labels: []string{"type:" + c.Type.Name}}
 	mods := modules(c.Type, c.Hops)
@@ -416,7 +444,7 @@ func checkCase(c Case) fw.Outcome {
 	nearBound := 0
 	for _, v := range c.Values {
 		want := sp.Contains(v)
-		if fw.KnownQuiet("c16.decimal64-float-compare") && hasDecimal(c.Type) && strings.Count(strings.Trim(strings.ReplaceAll(v, ".", ""), "+-0"), "")-1 > 15 && isNumeric(v) {
+		if fw.KnownQuiet("c16.decimal64-float-compare") && hasDecimal(c.Type) && strings.Count(strings.Trim(strings.ReplaceAll(v, ".", ""), "+-0"), "")-1 > 15 && isNumeric(v) && !beyond64(c.Type, v) {
 			fw.Known("c16.decimal64-float-compare")
 			continue
 		}
